@@ -808,7 +808,11 @@ func (P *Prog) checkPointerAlloc(r *Result) {
 	r.sawFunc(fname(fn))
 	var problems []string
 	nSet := 0
-	for _, w := range P.writeSites(fn) {
+	var sites []writeSite
+	for _, u := range P.nodeUnits(fn) {
+		sites = append(sites, P.writeSites(u.fn)...) // also in a helper such as `allocIfNil(ptr)`
+	}
+	for _, w := range sites {
 		if !w.viaReflect || w.what != "reflect.Set" {
 			continue
 		}
